@@ -83,16 +83,16 @@ pub struct Shapes16 {
 }
 
 const SHAPES16: &[FieldSpec] = &[
-    f!("m_plain", true, ["x", "y z"], Exact, None),
+    f!("m_plain", true, ["x", "y z", ""], Exact, None),
     f!("M-Renamed", true, ["1", "-42"], Normal, Some("1x")),
     f!("m_ser", true, ["+1", "-42"], Normal, Some("1x")),
     f!("M-Renamed-Ser", true, ["+7", "+0"], Normal, Some("--1")),
     f!("m_de", true, ["10", "-3"], Normal, Some("0xZZ")),
     f!("M-Renamed-De", true, ["255", "0"], Normal, Some("ten")),
-    f!("m_both", true, ["a", "a b c"], Words, Some("a !b")),
+    f!("m_both", true, ["a", "a b c", ""], Words, Some("a !b")),
     f!("M-Renamed-Both", true, ["yes", "no"], Exact, Some("maybe")),
     f!("o_plain", false, ["optional", "extra"], Exact, Some("superfluous")),
-    f!("O-Renamed", false, ["x", "y z"], Exact, None),
+    f!("O-Renamed", false, ["x", "y z", ""], Exact, None),
     f!("o_ser", false, ["+1", "-42"], Normal, Some("1x")),
     f!("O-Renamed-Ser", false, ["+7", "+0"], Normal, Some("--1")),
     f!("o_de", false, ["10", "-3"], Normal, Some("0xZZ")),
@@ -112,16 +112,16 @@ macro_rules! single {
         const $tbl: &[FieldSpec] = &[$spec];
     };
 }
-single!(S01, T01, "S01", { v: String }, f!("v", true, ["x", "y z"], Exact, None));
+single!(S01, T01, "S01", { v: String }, f!("v", true, ["x", "y z", ""], Exact, None));
 single!(S02, T02, "S02", { #[deb822(field = "V-Renamed")] v: i32 }, f!("V-Renamed", true, ["1", "-42"], Normal, Some("1x")));
 single!(S03, T03, "S03", { #[deb822(serialize_with = ser_plus)] v: i32 }, f!("v", true, ["+1", "-42"], Normal, Some("1x")));
 single!(S04, T04, "S04", { #[deb822(field = "V-Renamed", serialize_with = ser_plus)] v: i32 }, f!("V-Renamed", true, ["+7", "+0"], Normal, Some("--1")));
 single!(S05, T05, "S05", { #[deb822(deserialize_with = de_hex)] v: i32 }, f!("v", true, ["10", "-3"], Normal, Some("0xZZ")));
 single!(S06, T06, "S06", { #[deb822(field = "V-Renamed", deserialize_with = de_hex)] v: i32 }, f!("V-Renamed", true, ["255", "0"], Normal, Some("ten")));
-single!(S07, T07, "S07", { #[deb822(serialize_with = ser_list, deserialize_with = de_list)] v: Vec<String> }, f!("v", true, ["a", "a b c"], Words, Some("a !b")));
+single!(S07, T07, "S07", { #[deb822(serialize_with = ser_list, deserialize_with = de_list)] v: Vec<String> }, f!("v", true, ["a", "a b c", ""], Words, Some("a !b")));
 single!(S08, T08, "S08", { #[deb822(field = "V-Renamed", serialize_with = ser_yesno, deserialize_with = de_yesno)] v: bool }, f!("V-Renamed", true, ["yes", "no"], Exact, Some("maybe")));
 single!(S09, T09, "S09", { v: Option<debian_control::fields::Priority> }, f!("v", false, ["optional", "extra"], Exact, Some("superfluous")));
-single!(S10, T10, "S10", { #[deb822(field = "V-Renamed")] v: Option<String> }, f!("V-Renamed", false, ["x", "y z"], Exact, None));
+single!(S10, T10, "S10", { #[deb822(field = "V-Renamed")] v: Option<String> }, f!("V-Renamed", false, ["x", "y z", ""], Exact, None));
 single!(S11, T11, "S11", { #[deb822(serialize_with = ser_plus)] v: Option<i32> }, f!("v", false, ["+1", "-42"], Normal, Some("1x")));
 single!(S12, T12, "S12", { #[deb822(field = "V-Renamed", serialize_with = ser_plus)] v: Option<i32> }, f!("V-Renamed", false, ["+7", "+0"], Normal, Some("--1")));
 single!(S13, T13, "S13", { #[deb822(deserialize_with = de_hex)] v: Option<i32> }, f!("v", false, ["10", "-3"], Normal, Some("0xZZ")));
